@@ -113,10 +113,18 @@ func evalCrash(c CrashCase, ref *progen.RefResult, p *progen.Program) crashOutco
 		os.Remove(filepath.Join(dir, "ps", "_lock"))
 	}
 	pid := 4343
+	var midRerun []string
 	var inc2 *Result
 	if c.Crash2At > 0 {
 		mid := Run(p, Schedule{}, Options{PsDir: dir, Resume: true, CrashAt: c.Crash2At, MrpPid: pid})
 		if mid.Crashed {
+			// jobs the middle incarnation ran although the first one had
+			// recorded their completion count against it
+			for _, j := range mid.Jobs {
+				if recorded[j.Key] {
+					midRerun = append(midRerun, j.Key)
+				}
+			}
 			for _, j := range mid.Jobs {
 				if j.Finished && j.How == "complete" && j.Recorded {
 					recorded[j.Key] = true
@@ -125,8 +133,6 @@ func evalCrash(c CrashCase, ref *progen.RefResult, p *progen.Program) crashOutco
 			os.Remove(filepath.Join(dir, "ps", "_lock"))
 			pid = 4444
 			inc2 = Run(p, Schedule{}, Options{PsDir: dir, Resume: true, MrpPid: pid})
-			// jobs the middle incarnation re-ran count against it too
-			inc2.Jobs = append(mid.Jobs, inc2.Jobs...)
 		} else {
 			inc2 = mid
 		}
@@ -164,7 +170,7 @@ func evalCrash(c CrashCase, ref *progen.RefResult, p *progen.Program) crashOutco
 	} else if d := progen.EqSlack(ref.TopOuts, inc2.TopOuts, "outs"); d != "" {
 		out.viol = append(out.viol, "final outputs after restart differ from the uninterrupted run: "+d)
 	}
-	var rerun []string
+	rerun := append([]string{}, midRerun...)
 	for _, j := range inc2.Jobs {
 		if recorded[j.Key] {
 			rerun = append(rerun, j.Key)
